@@ -194,7 +194,11 @@ def t_tilt_about_centre(ctx, rng, desc):
     if isinstance(B, tuple):
         return
     # domain: the footprint on the tilted surface must stay well inside |R| (root selection heuristic: partial)
-    foot = max(float(np.nanmax(np.abs(A['x'][k]))), float(np.nanmax(np.abs(A['y'][k]))))
+    foot = max(float(np.nanmax(np.abs(A['x'][k]))), float(np.nanmax(np.abs(A['y'][k]))),
+               float(np.nanmax(np.abs(A['z'][k] - z0))))
+    if np.any(A['N'][0] <= 0):
+        ctx.count('tilt: rays launched backwards (entrance pupil behind the object, observation F25)')
+        return
     if not math.isfinite(foot) or foot > 0.2 * abs(R):
         ctx.count('tilt: footprint too large for the root-selection heuristic (out of domain)')
         return
@@ -282,18 +286,12 @@ def t_scale_system(ctx, rng, drv_lines, keep):
     keep.append((case, a, float(o1.aperture.value)))
 
 
-def run(tier, seed, replay=None):
-    ctx = Ctx('C07', tier, seed)
-    ctx.stats['rule'] = ('lens x transformation: both meridional mirrors and their product, tilt <= 0.3 rad about the '
-                         'centre of curvature of a spherical surface, dummy plane in any gap, wavelength change of a '
-                         'dispersion-free lens, scale factors in [0.01,100] (descriptor level) and Optic.scale_system '
-                         'on lenses of planes and conics; distinct by descriptor+transformation hash')
-    aud = audit('C07')
+def work(ctx, seeds):
+    import random as _r
     drv = Driver()
-    n = 200 if ctx.quick() else 10000
     lines, keep = [], []
-    for i in range(n):
-        rng = ctx.rng
+    for sd in seeds:
+        rng = _r.Random(sd)
         d = lensgen.gen_lens(rng, allow_asphere=rng.random() < 0.25, allow_tilt=rng.random() < 0.2,
                              nsurf=rng.randint(1, 9), finite_object=rng.random() < 0.3)
         for name, fn in (('mirror', t_mirror), ('dummy', t_dummy), ('wavelength', t_wavelength),
@@ -315,6 +313,20 @@ def run(tier, seed, replay=None):
         for f in ('z', 'radius', 'conic'):
             ctx.cmp_list('scale_system.' + f, snap[f], m[f], case, rtol=1e-12, atol=1e-12)
         ctx.cmp('scale_system.EPD', apv, unhex(last.split()[-1]), case, rtol=1e-12)
+
+
+def run(tier, seed, replay=None):
+    ctx = Ctx('C07', tier, seed)
+    ctx.stats['rule'] = ('lens x transformation: both meridional mirrors and their product, tilt <= 0.3 rad about the '
+                         'centre of curvature of a spherical surface, dummy plane in any gap, wavelength change of a '
+                         'dispersion-free lens, scale factors in [0.01,100] (descriptor level) and Optic.scale_system '
+                         'on lenses of planes and conics; distinct by descriptor+transformation hash')
+    aud = audit('C07')
+    n = 200 if ctx.quick() else 10000
+    import random as _r
+    seeds = [ctx.rng.randint(0, 2 ** 31) for _ in range(n)]
+    from .core import run_parallel
+    run_parallel(ctx, 'harness.c07', 'work', seeds, nproc=4 if ctx.quick() else None)
     return finish(ctx, aud,
                   partial=['tilt about the centre of curvature: that the same intersection candidate is selected '
                            'depends on the nearest-to-vertex-plane rule (numerical, footprint <= 0.2 |R|)',
